@@ -264,7 +264,9 @@ def tri_attr(test, env):
 
 def check_r04c(repo, rep):
     mod = repo.module(YT)
-    pub = mod.func('Lambda._publish_params')
+    inline = mod.functions.get('Lambda._publish_params') is None
+    # (the publishing may be written out in _call itself)
+    pub = mod.func('Lambda._call' if inline else 'Lambda._publish_params')
     ctx = pub.params()[0] if not pub.is_method else pub.params()[0]
     ps = pub.params()
     cname = 'context' if 'context' in ps else ps[0]
@@ -287,6 +289,8 @@ def check_r04c(repo, rep):
                 c.func.attr == '_publish_params' and c.args:
             ok1 = isinstance(c.args[0], ast.Name) and \
                 c.args[0].id == 'context'
+        if inline:
+            ok1 = ok      # the stores above ARE into `context`
         if len(c.args) == 3 and isinstance(c.args[1], ast.Name) and \
                 c.args[1].id == 'context' and isinstance(
                     c.func, ast.Name) and c.func.id == cps[1]:
